@@ -187,6 +187,15 @@ def user_worlds(max_units, factors, forms):
 
 
 DERIVED_WORLDS = [
+    # binary scales whose ratio exceeds 2**61 (a sector of 512 byte next to
+    # zebi / yobi multiples): numerically far apart, equal modulo 2**61 - 1
+    [['type', 'DS', 'by', None],
+     ['unit', 'DS', 'sector', ['scaled', 'i:512', 'by']],
+     ['unit', 'DS', 'Eiby', ['scaled', 'i:1152921504606846976', 'by']],
+     ['unit', 'DS', 'Ziby', ['scaled', 'i:1024', 'Eiby']],
+     ['unit', 'DS', 'Yiby', ['scaled', 'i:1024', 'Ziby']],
+     ['unit', 'DS', 'by61', ['scaled', 'i:2305843009213693952', 'by']],
+     ['unit', 'DS', 'bit', ['scaled', 'F:1/8', 'by']]],
     # derived types with units from derive_unit_from and term definitions
     [['type', 'B1', 'x0', None], ['type', 'B2', 'y0', None],
      ['unit', 'B1', 'x1', ['scaled', 'i:1000', 'x0']],
